@@ -13,6 +13,7 @@ import LW.Model.Frag
 import LW.Generated.LeapTable
 import LW.Generated.EirpTable
 import LW.Driver.AppOps
+import LW.Driver.BackendOps
 namespace LW.Driver
 open LW LW.Canon
 
@@ -171,6 +172,8 @@ def runOp (st : DState) (op : String) (args : List String) : DState × String :=
           | .acceptedFOptsErr => "accepted fopts-ERR" | .acceptedFrmErr => "accepted frm-ERR"
           | .accepted f => "accepted " ++ fmtFrame f)
       | .err => "ERR" | .panic => "PANIC")
-  | _ => if AppOps.isAppOp op then (st, AppOps.appQuery E op args) else (st, badop ("unknown " ++ op))
+  | _ => if AppOps.isAppOp op then (st, AppOps.appQuery E op args)
+         else if BackendOps.isBackendOp op then (st, BackendOps.backendQuery E op args)
+         else (st, badop ("unknown " ++ op))
 
 end LW.Driver
